@@ -4,6 +4,7 @@ import (
 	"encoding/json"
 	"fmt"
 	"path/filepath"
+	"sync"
 
 	"github.com/mk6i/mkdb/storage"
 
@@ -39,8 +40,24 @@ func init() {
 			return err
 		}
 		outs := make([]nodeOut, len(specs))
-		for i, sp := range specs {
-			outs[i] = runNode(sp, i)
+		if w := op.N; w > 1 {
+			// several goroutines, each with nodes and store files of its
+			// own, as several open databases flush side by side
+			var wg sync.WaitGroup
+			for g := 0; g < w; g++ {
+				wg.Add(1)
+				go func(g int) {
+					defer wg.Done()
+					for i := g; i < len(specs); i += w {
+						outs[i] = runNode(specs[i], 1000*(g+1)+i%8)
+					}
+				}(g)
+			}
+			wg.Wait()
+		} else {
+			for i, sp := range specs {
+				outs[i] = runNode(sp, i%8)
+			}
 		}
 		b, err := json.Marshal(outs)
 		res.Raw = b
@@ -111,7 +128,7 @@ func runNode(sp nodespec.Spec, idx int) (o nodeOut) {
 		}
 	}
 	if sp.Off < 1<<24 {
-		if d, err := storage.VerifStoreRoundTrip(filepath.Join(".", fmt.Sprintf("node-%d.tbl", idx%8)), n); err != nil {
+		if d, err := storage.VerifStoreRoundTrip(filepath.Join(".", fmt.Sprintf("node-%d.tbl", idx)), n); err != nil {
 			o.StoreErr = err.Error()
 		} else {
 			o.Stored = pg(d)
